@@ -815,3 +815,41 @@ def rule_every_record_crc_checked(cx):
         cx.check(bb_ not in r, "%s only after the record's checksum was computed and compared" % what, "record-effect-without-crc|%s" % what.replace(" ", "_"), where,
                  "Reader::next acts on a record (%s) without verifying its checksum: a damaged type byte turns a data record into a metadata record that is silently "
                  "consumed, so a committed transaction disappears (and later records are mis-decoded) without any corruption report" % what)
+
+
+def rule_repair_temp_fresh(cx):
+    """Repair copies the valid prefix of the damaged segment into a temporary WAL (`wal/repair_temp`) and renames it over
+    the original.  `Wal::open` APPENDS to a segment it finds: if a repair that crashed half-way left the directory behind,
+    the next repair writes its copy behind the leftover (complete records twice, or a torn record in the middle) and
+    installs that -- the store then fails to open, and one more repair cuts records that lay wholly before the damage.
+    Decided: on every path to the temporary WAL's open the directory was removed, or tested and found absent."""
+    f = cx.f
+    from ..core import bool_edges
+    b = f.body("wal::recovery::repair_corrupted_wal_segment")
+    opens = sites(cx, b, ["Wal::open"], minimum=1)
+    for op in opens:
+        d0 = origin_of_operand(b, op.args[0], through_calls="all")
+        joins = {id(c) for c in d0.calls if c.primary.split("::")[-1] == "join"}
+        def same_dir(c):
+            if not c.args:
+                return False
+            o = origin_of_operand(b, c.args[0], through_calls="all")
+            return bool(joins & {id(x) for x in o.calls})
+        rms = [c for c in b.calls if c.bb in b.live and c.primary.split("::")[-1] in ("remove_dir_all", "remove_file") and same_dir(c)
+               and op.bb in b.reachable_after([c.bb])]
+        cut = set()
+        for c in b.calls:
+            if c.bb in b.live and c.primary.split("::")[-1] in ("exists", "try_exists") and same_dir(c) and len(c.dest) == 1 and c.target is not None:
+                e, sw = bool_edges(b, c.dest[0], c.target)
+                if e:
+                    for succ, lab in e.items():
+                        if lab == frozenset({False}):
+                            cut.add((sw, succ))
+        r = reach_cut(b, [0], avoid={c.bb for c in rms}, cut_edges=cut)
+        # a removal whose error is swallowed (`.ok()`) does not establish emptiness
+        from ..core import result_fate
+        weak = [c for c in rms if (result_fate(b, c) or "").startswith("dropped")]
+        cx.check(bool(rms) and op.bb not in r and not weak, "the repair's temporary WAL directory is emptied before it is opened", "repair-temp-reused", op.where(),
+                 "repair_corrupted_wal_segment opens `repair_temp` with Wal::open (which appends to an existing segment) without removing what an earlier, crashed "
+                 "repair left there: the repaired segment becomes leftover + copy, the store fails to open (`still corrupted after repair`) and the next repair cuts "
+                 "records that lay wholly before the damage")
